@@ -12,7 +12,7 @@ object per output line.  Names are arrays of code points.
   CAT  = {"ints":null|[["n",NAME]|["d",NAME,NAME,NAME|null]…],"pns":null|NAME,"pm":null|["list"|"legacy",[[NAME,NAME|null]…]],"dns":null|NAME}
   NODE = ["I",[NAME…],star,null|[NAME…]] | ["L"] | ["N"] | ["F",udf,[KID…]] | ["S","n|j|s",[KID…]] | ["P",[KID…]]
   KID  = ["t|g|a|k",NODE]
-  SEL  = [[[[NAME…],NAME|null]…],[[NAME…]…],[SEL…]] -/
+  SEL  = [[[[NAME…],NAME|null]…],[[NAME…]…],[SEL…],[SEL…]]   (tables, column references, nested selects, CTE bodies) -/
 open Lean (Json)
 open MindsVerif.Route
 
@@ -83,14 +83,18 @@ end
 
 mutual
 partial def getSel (j : Json) : Except String Sel := do
-  match (← j.getArr?).toList with
-  | [tabs, cols, subs] =>
+  let l := (← j.getArr?).toList
+  match l with
+  | tabs :: cols :: subs :: rest =>
     let tabs ← (← tabs.getArr?).toList.mapM fun t => do
       match (← t.getArr?).toList with
       | [p, a] => pure (⟨← getNames p, ← getOptName a⟩ : TRef)
       | _ => throw "tref"
     let cols ← (← cols.getArr?).toList.mapM getNames
-    return .mk tabs cols (← getSels (← subs.getArr?).toList)
+    let ctes ← match rest with
+      | [c] => getSels (← c.getArr?).toList
+      | _ => pure Sels.nil
+    return .mk tabs cols (← getSels (← subs.getArr?).toList) ctes
   | _ => throw "sel"
 partial def getSels : List Json → Except String Sels
   | [] => pure .nil
@@ -195,7 +199,7 @@ def handle (line : String) : Except String Json := do
       ("local", .arr ((resolveAll false db sch [] (stripSel db [] s)).map jResC).toArray),
       ("ok", okSel db [] s),
       ("localA", .arr ((resolveAll false db sch [] (stripSel db (aliasesOf s) s)).map jResC).toArray),
-      ("okA", okSel db (aliasesOf s) s)]
+      ("okA", okSel db (aliasesOf s) s), ("names", jNames (aliasesOf s))]
   else throw "op"
 
 partial def loop (h : IO.FS.Stream) (out : IO.FS.Stream) : IO Unit := do
